@@ -17,7 +17,7 @@ RULE = (
     "(a) n_cal in 1..N, every multiset of (score, weight) pairs over scores {-0.2,0,0.1,0.3} x weights {1,2,5}, alpha in {0.1..0.9,0.95} with "
     "alpha(1+1/n)<=1, robust in {False,True}: one correction is applied symmetrically to both bounds of both outstanding units, the weighted share of "
     "calibration units with score <= correction exceeds alpha(1+1/n), and with robust the correction is also >= the unweighted quantile. "
-    "(b) every multiset of n+1 relative changes over {-0.5,0,0.3,3.0}, with no covariate and with a covariate that is a monotone function of the value, "
+    "(c) real fits with one covariate, n in {12,20}, every rotation of a fixed residual list against two covariate patterns, alphas {0.5,0.7,0.9}, robust on/off: each reporting unit has an outstanding twin with the same baseline and covariates, and the calibration units' true counts must lie inside the intervals *reported* for their twins with weighted share > alpha(1+1/n_cal). (b) every multiset of n+1 relative changes over {-0.5,0,0.3,3.0}, with no covariate and with a covariate that is a monotone function of the value, "
     "alpha in {0.5,0.6,(0.7)}: all (n+1)! assignments to (n reporting positions, 1 outstanding unit) run through the real model; the number of orderings "
     "whose outstanding unit's true count lies inside its reported interval must be >= alpha (n+1)!. non-trivial = (a) the weighted and the unweighted "
     "correction differ or scores tie; (b) the population is not constant"
@@ -75,12 +75,21 @@ def cases(tier, seed):
     # all values distinct: no ties to inflate coverage, the conformal bound is then tight
     for k in range(16):
         out.append({"kind": "coverage", "pop": "distinct7", "cov": "none", "alpha": 0.7, "n": 6, "chunk": [k, 16]})
+    # (c) real fits with a covariate: every reporting unit has an outstanding twin (same baseline, same covariates); the
+    # calibration units' true values must lie inside the interval *reported* for their twins with weighted share > quantile
+    for n, alpha_list in ((12, (0.5, 0.7)), (20, (0.7, 0.9))):
+        for alpha in alpha_list:
+            for xmode in ("spread", "mixed"):
+                for robust in (False, True):
+                    out.append({"kind": "twins", "n": n, "alpha": alpha, "xmode": xmode, "robust": robust, "rotations": list(range(n))})
     return out
 
 
 def describe(case):
     if case["kind"] == "calib":
         return {"kind": "calib", "n_sets": len(case["sets"]), "first_set_(score_index,weight)": case["sets"][0]}
+    if case["kind"] == "twins":
+        return dict(case, rotations=f"all {len(case['rotations'])} rotations of the residual list against the covariates")
     return dict(case, pop=DISTINCT7 if case["pop"] == "distinct7" else [VALUES[i] for i in case["pop"]])
 
 
@@ -255,6 +264,65 @@ def _coverage(case, cov, viol):
     return total, len(set(pop)) > 1, covered / total
 
 
+RESID = [-0.42, -0.3, -0.22, -0.15, -0.1, -0.06, -0.02, 0.0, 0.03, 0.07, 0.1, 0.14, 0.2, 0.26, 0.31, 0.4, 0.5, 0.62, 0.7, 0.85]
+
+
+def _twins(case, cov, viol):
+    import warnings
+
+    import numpy as np
+    import pandas as pd
+
+    from elexmodel.models.NonparametricElectionModel import NonparametricElectionModel
+
+    n, alpha = case["n"], case["alpha"]
+    runs = 0
+    nontrivial = False
+    for k in case["rotations"]:
+        res = [RESID[(i * 7 + k) % len(RESID)] for i in range(n)]
+        if case["xmode"] == "spread":
+            xs = [abs(r) * 3 + 0.1 * ((i * 5) % 7) for i, r in enumerate(res)]  # spread of the residuals grows with x: quantile lines fan out / cross
+        else:
+            xs = [((i * 11 + k) % n) / n * 3 for i in range(n)]
+        ws = [BIGW * (1 + (i * 3 + k) % 4) for i in range(n)]
+        rep = pd.DataFrame({"postal_code": "AA", "geographic_unit_fips": [f"r{i:02d}" for i in range(n)], "last_election_results_turnout": [float(w) for w in ws],
+                            "results_turnout": [w * (1 + r) for w, r in zip(ws, res)], "residuals_turnout": res, "reporting": 1, "unit_category": "expected", "x1": xs})
+        twin = pd.DataFrame({"postal_code": "AA", "geographic_unit_fips": [f"t{i:02d}" for i in range(n)], "last_election_results_turnout": [float(w) for w in ws],
+                             "results_turnout": 0.0, "reporting": 0, "unit_category": "expected", "x1": xs})
+        model = NonparametricElectionModel({"features": ["x1"], "robust": case["robust"]})
+        with warnings.catch_warnings():
+            warnings.simplefilter("ignore")
+            try:
+                model.get_unit_predictions(rep, twin, "turnout")
+                pi = model.get_unit_prediction_intervals(rep, twin, alpha, "turnout")
+            except Exception as e:
+                viol("twins-raised", f"n={n} alpha={alpha} {case['xmode']} robust={case['robust']} rotation={k}: {type(e).__name__}: {e}")
+                continue
+        runs += 1
+        lo = np.asarray(pi.lower, dtype=float)
+        hi = np.asarray(pi.upper, dtype=float)
+        conf = pi.conformalization
+        cal = [int(u[1:]) for u in conf.geographic_unit_fips]
+        q = Fraction(str(alpha)) * (1 + Fraction(1, len(cal)))
+        if q >= 1:
+            continue
+        inside_w = 0
+        for i in cal:
+            truth = ws[i] * (1 + res[i])
+            if lo[i] - 1.0 <= truth <= hi[i] + 1.0:
+                inside_w += ws[i]
+        share = Fraction(int(inside_w), int(sum(ws[i] for i in cal)))
+        if not share > q - Fraction(1, 10**9):
+            viol("reported-interval-not-calibrated", f"n={n} alpha={alpha} {case['xmode']} robust={case['robust']} rotation={k}: the true counts of the calibration units lie inside the intervals reported for "
+                 f"their twins (same baseline and covariates) with weighted share {float(share):.4f}, needs > {float(q):.4f} ({len(cal)} calibration units)")
+        crossed = int(((conf.lower_bounds + conf.upper_bounds) > 1e-12).sum())
+        if crossed:
+            cov["runs_with_crossing_quantile_lines"] += 1
+            nontrivial = True
+        cov["twin_runs"] += 1
+    return runs, nontrivial
+
+
 def evaluate(case):
     cov = Counter()
     V = []
@@ -263,6 +331,9 @@ def evaluate(case):
         if not any(v["sig"] == f"C04:{kind}" for v in V):
             V.append({"sig": f"C04:{kind}", "msg": msg})
 
+    if case["kind"] == "twins":
+        runs, nontrivial = _twins(case, cov, viol)
+        return {"violations": V, "cov": dict(cov), "outcome": sha([v["sig"] for v in V] + [runs]), "nontrivial": nontrivial, "transitions": max(1, runs)}
     if case["kind"] == "calib":
         runs, nontrivial = _calib(case, cov, viol)
         outcome = sha([v["sig"] for v in V] + [runs])
@@ -298,4 +369,4 @@ def post(cases, results, tier, seed):
     return {"violations": viols, "cov": {f"min_coverage_permille_alpha_{a}": int(round(1000 * f)) for a, f in worst.items()}}
 
 
-REQUIRED_COUNTERS = {"calibration_checks": 10000, "orderings": 10000, "tied_scores": 1000, "weighted_differs_from_unweighted": 200, "negative_correction": 500, "exact_knife_edge_sets": 50}
+REQUIRED_COUNTERS = {"calibration_checks": 10000, "orderings": 10000, "tied_scores": 1000, "weighted_differs_from_unweighted": 200, "negative_correction": 500, "exact_knife_edge_sets": 50, "twin_runs": 200, "runs_with_crossing_quantile_lines": 10}
